@@ -26,13 +26,16 @@ import (
 //	wait k      let call k enter its final select
 //	cancel k    cancel the context of call k
 //	race k      let call k enter its final select and cancel it at the same time
-//	avail a / unavail a / err k / invite / other   the service sends a stanza (v selects a variant)
+//	avail a / unavail a / err k / invite / msg / other   the service sends a stanza (v selects a variant,
+//	            p the shape of a presence's muc#user payload, c the children of a message)
 //	query a     call Joined() on the channel of address a
 type Op struct {
 	Op string `json:"op"`
 	A  int    `json:"a,omitempty"`
 	K  int    `json:"k,omitempty"`
 	V  int    `json:"v,omitempty"`
+	P  int    `json:"p,omitempty"` // presence payload shape (payloads)
+	C  string `json:"c,omitempty"` // children of a message (msg op), see childXML
 }
 
 type Case struct {
@@ -42,11 +45,13 @@ type Case struct {
 
 // Label is one label of the model's transition system (coq/C18/Model.v).
 type Label struct {
-	T string `json:"t"`
-	K int    `json:"k,omitempty"`
-	A int    `json:"a,omitempty"`
-	O string `json:"o,omitempty"` // outcome of a return / kind of a call / stanza kind
-	B bool   `json:"b,omitempty"`
+	T string   `json:"t"`
+	K int      `json:"k,omitempty"`
+	A int      `json:"a,omitempty"`
+	O string   `json:"o,omitempty"` // outcome of a return / kind of a call / stanza kind
+	B bool     `json:"b,omitempty"`
+	V int      `json:"v,omitempty"` // message variant (type attribute etc.)
+	C []string `json:"c,omitempty"` // children of a delivered message: "i<n>" invite n, "u" muc#user x without invite, "f" x of another namespace, "o" other
 }
 
 const nAddr = 4
@@ -129,6 +134,7 @@ type world struct {
 	anomaly  []string
 	usedAddr [nAddr]bool
 	stuck    bool // a watchdog expired in this world
+	died     bool // the Serve loop ended while handling a stanza
 }
 
 func newWorld() (*world, error) {
@@ -506,8 +512,12 @@ func (w *world) afterReturn(c *callRec) {
 }
 
 func (w *world) finishIter() {
-	if !w.waitFor(w.iterDone) {
+	if !w.waitFor(func() bool { return w.iterDone() || w.serveDead() }) {
 		w.anom("the serve loop did not finish handling a stanza")
+		return
+	}
+	if !w.iterDone() && w.serveDead() {
+		w.died = true
 	}
 }
 
@@ -572,6 +582,80 @@ func (w *world) sendRaw(s string) bool {
 	return true
 }
 
+// payloads are the contents of the muc#user x of a presence. The first nGood
+// decode into the library's presence type (whatever they lack or carry in
+// excess), the rest do not: unknown role or affiliation values, malformed jids,
+// a status code that is not a number.
+var payloads = []string{
+	`<item affiliation="member" role="participant"/>`,
+	``,
+	`<item/>`,
+	`<item affiliation="owner" role="moderator" jid="a@b.example/c" nick="n"><reason>r</reason><actor nick="z"/></item>`,
+	`text<item affiliation="none" role="none">more text</item>tail`,
+	`<item affiliation="admin" role="visitor"/><item affiliation="outcast" role="none"/><status code="210"/><unknown xmlns="urn:x"><deep/></unknown>`,
+	`<item affiliation="member"/>`,
+	`<status/><item role="moderator"/>`,
+	// undecodable
+	`<item role="bot" affiliation="none"/>`,
+	`<item affiliation="superuser" role="participant"/>`,
+	`<item affiliation="member" role=""/>`,
+	`<item affiliation="member" role="participant" jid="@example.net"/>`,
+	`<item affiliation="member" role="participant"/><status code="abc"/>`,
+	`<item affiliation="" role="participant"/>`,
+	`<item affiliation="member" role="participant" jid="a@b/"/>`,
+	`<item affiliation="Member" role="participant"/>`,
+}
+
+const nGood = 8
+
+func badPayload(p int) bool { return p%len(payloads) >= nGood }
+
+func presenceShapeXML(a int, typ string, v int, id string, p int) string {
+	var sb strings.Builder
+	sb.WriteString(`<presence from="` + addrs[a] + `" to="` + me + `"`)
+	if typ != "" {
+		sb.WriteString(` type="` + typ + `"`)
+	}
+	if v&1 == 1 && id != "" {
+		sb.WriteString(` id="` + id + `"`)
+	}
+	sb.WriteString(`>`)
+	if v&4 == 4 {
+		sb.WriteString(`<priority>1</priority>`)
+	}
+	if v&8 == 8 {
+		// the x elements of other namespaces that presences commonly carry
+		sb.WriteString(`<x xmlns="vcard-temp:x:update"><photo>abc</photo></x>`)
+	}
+	sb.WriteString(`<x xmlns="http://jabber.org/protocol/muc#user">` + payloads[p%len(payloads)])
+	if v&2 == 2 {
+		sb.WriteString(`<status code="110"/>`)
+	}
+	sb.WriteString(`</x>`)
+	if v&16 == 16 {
+		// (no x element AFTER the payload: HandlePresence decodes into a field tagged
+		// `x` without a name space, the last x wins, and the user presence callback is
+		// then skipped: a quirk outside the property that the model does not have)
+		sb.WriteString(`<c xmlns="http://jabber.org/protocol/caps" hash="sha-1" node="n" ver="v"/><delay xmlns="urn:xmpp:delay" stamp="2002-09-10T23:08:25Z"/>`)
+	}
+	sb.WriteString(`</presence>`)
+	return sb.String()
+}
+
+// deliverBad: a presence whose muc#user payload does not decode.
+func (w *world) deliverBad(a int, typ string, v, p int) bool {
+	if w.srv != "idle" {
+		return false
+	}
+	w.lab(Label{T: "deliver", O: "bad", A: a})
+	if !w.sendRaw(presenceShapeXML(a, typ, v, w.lastReq(a), p)) {
+		return true
+	}
+	w.finishIter()
+	w.collect()
+	return true
+}
+
 func presenceXML(a int, typ string, v int, id string) string {
 	var sb strings.Builder
 	sb.WriteString(`<presence from="` + addrs[a] + `" to="` + me + `"`)
@@ -603,12 +687,15 @@ func (w *world) lastReq(a int) string {
 	return ""
 }
 
-func (w *world) deliverAvail(a, v int) bool {
+func (w *world) deliverAvail(a, v, p int) bool {
 	if w.srv != "idle" {
 		return false
 	}
+	if badPayload(p) {
+		return w.deliverBad(a, "", v, p)
+	}
 	w.lab(Label{T: "deliver", O: "avail", A: a})
-	if !w.sendRaw(presenceXML(a, "", v, w.lastReq(a))) {
+	if !w.sendRaw(presenceShapeXML(a, "", v, w.lastReq(a), p)) {
 		return true
 	}
 	ch := &w.chans[a]
@@ -683,12 +770,15 @@ func (w *world) handlerMovesOn() {
 	w.handlerTakes()
 }
 
-func (w *world) deliverUnavail(a, v int) bool {
+func (w *world) deliverUnavail(a, v, p int) bool {
 	if w.srv != "idle" {
 		return false
 	}
+	if badPayload(p) {
+		return w.deliverBad(a, "unavailable", v, p)
+	}
 	w.lab(Label{T: "deliver", O: "unavail", A: a})
-	if !w.sendRaw(presenceXML(a, "unavailable", v, w.lastReq(a))) {
+	if !w.sendRaw(presenceShapeXML(a, "unavailable", v, w.lastReq(a), p)) {
 		return true
 	}
 	w.finishIter()
@@ -740,39 +830,90 @@ func (w *world) deliverErr(k, v int) bool {
 	return true
 }
 
-func (w *world) deliverInvite(v int) bool {
+// childXML renders one child of a normal message. Letters of a msg op:
+//
+//	i  muc#user x with an invite (the next invitation number; identified by its reason, or by
+//	   its password when the variant has v&8)
+//	d  muc#user x with a declined invitation     s  muc#user x with a status code
+//	c  legacy jabber:x:conference x (XEP-0045 7.8.2)   y  jabber:x:delay x   f  jabber:x:data x
+//	m  x of the muc namespace (not muc#user)     b  body    t  thread
+//	q  an element of the muc#user namespace that is not x
+func (w *world) childXML(ch byte, v int, lab *[]string) string {
+	switch ch {
+	case 'i':
+		i := w.invSeq
+		w.invSeq++
+		*lab = append(*lab, fmt.Sprintf("i%d", i))
+		id := fmt.Sprintf("inv-%d", i)
+		reason, extra := `<reason>`+id+`</reason>`, ""
+		if v&2 == 2 {
+			extra = `<password>pw</password>`
+		}
+		if v&8 == 8 {
+			reason, extra = `<continue thread="t1"/>`, `<password>`+id+`</password>`
+		}
+		return `<x xmlns="http://jabber.org/protocol/muc#user"><invite from="inviter@example.org/x">` + reason + `</invite>` + extra + `</x>`
+	case 'd':
+		*lab = append(*lab, "u")
+		return `<x xmlns="http://jabber.org/protocol/muc#user"><decline from="a@b.example"><reason>no</reason></decline></x>`
+	case 's':
+		*lab = append(*lab, "u")
+		return `<x xmlns="http://jabber.org/protocol/muc#user"><status code="104"/></x>`
+	case 'c':
+		*lab = append(*lab, "f")
+		return `<x xmlns="jabber:x:conference" jid="room1@muc.example" reason="inv-77"/>`
+	case 'y':
+		*lab = append(*lab, "f")
+		return `<x xmlns="jabber:x:delay" stamp="20020910T23:08:25" from="room1@muc.example"/>`
+	case 'f':
+		*lab = append(*lab, "f")
+		return `<x xmlns="jabber:x:data" type="form"><title>t</title></x>`
+	case 'm':
+		*lab = append(*lab, "f")
+		return `<x xmlns="http://jabber.org/protocol/muc"><password>inv-78</password></x>`
+	case 't':
+		*lab = append(*lab, "o")
+		return `<thread>t1</thread>`
+	case 'q':
+		// an element of the muc#user namespace that is not the x payload
+		*lab = append(*lab, "o")
+		return `<note xmlns="http://jabber.org/protocol/muc#user">inv-79</note>`
+	default:
+		*lab = append(*lab, "o")
+		return `<body>You have been invited</body>`
+	}
+}
+
+// deliverMsg: a normal message (no type attribute if v&1) with the children c.
+func (w *world) deliverMsg(c string, v int) bool {
 	if w.srv != "idle" {
 		return false
 	}
-	i := w.invSeq
-	w.invSeq++
-	w.lab(Label{T: "deliver", O: "invite", K: i})
 	typ := ` type="normal"`
 	if v&1 == 1 {
 		typ = ""
 	}
-	extra := ""
-	if v&2 == 2 {
-		extra = `<password>pw</password>`
+	var lab []string
+	var sb strings.Builder
+	sb.WriteString(`<message from="room1@muc.example" to="` + me + `"` + typ + `>`)
+	for i := 0; i < len(c); i++ {
+		sb.WriteString(w.childXML(c[i], v, &lab))
 	}
-	body := ""
-	if v&4 == 4 {
-		body = `<body>You have been invited</body>`
-	}
-	id := fmt.Sprintf("inv-%d", i)
-	reason := `<reason>` + id + `</reason>`
-	if v&8 == 8 {
-		// no reason: the invitation is identified by its password
-		reason, extra = `<continue thread="t1"/>`, `<password>`+id+`</password>`
-	}
-	s := `<message from="room1@muc.example" to="` + me + `"` + typ + `>` + body +
-		`<x xmlns="http://jabber.org/protocol/muc#user"><invite from="inviter@example.org/x">` +
-		reason + `</invite>` + extra + `</x></message>`
-	if w.sendRaw(s) {
+	sb.WriteString(`</message>`)
+	w.lab(Label{T: "deliver", O: "msg", V: v, C: lab})
+	if w.sendRaw(sb.String()) {
 		w.finishIter()
 	}
 	w.collect()
 	return true
+}
+
+// deliverInvite: the plain invitation (optionally after a body).
+func (w *world) deliverInvite(v int) bool {
+	if v&4 == 4 {
+		return w.deliverMsg("bi", v)
+	}
+	return w.deliverMsg("i", v)
 }
 
 var others = []string{
@@ -787,6 +928,10 @@ var others = []string{
 	// muc#user payloads of normal messages that are not invitations
 	`<message from="room1@muc.example" to="` + me + `" type="normal"><x xmlns="http://jabber.org/protocol/muc#user"><decline from="a@b"><reason>no</reason></decline></x></message>`,
 	`<message from="room1@muc.example" to="` + me + `"><x xmlns="http://jabber.org/protocol/muc#user"><status code="104"/></x></message>`,
+	// error presences from rooms that were never joined, with muc#user payloads
+	`<presence from="room3@muc.example/ghost" to="` + me + `" type="error" id="none-1"><x xmlns="http://jabber.org/protocol/muc#user"><item role="bot"/></x><error type="cancel"><conflict xmlns="urn:ietf:params:xml:ns:xmpp-stanzas"/></error></presence>`,
+	`<presence from="room3@muc.example/ghost" to="` + me + `" type="error"><x xmlns="http://jabber.org/protocol/muc#user"><item affiliation="member" role="participant"/></x><error type="auth"><forbidden xmlns="urn:ietf:params:xml:ns:xmpp-stanzas"/></error></presence>`,
+	`<presence from="room3@muc.example/ghost" to="` + me + `" type="subscribe"><x xmlns="http://jabber.org/protocol/muc#user"><item affiliation="superuser"/></x></presence>`,
 }
 
 func (w *world) deliverOther(v int) bool {
@@ -833,13 +978,15 @@ func (w *world) apply(o Op) bool {
 	case "race":
 		return w.race(o.K)
 	case "avail":
-		return w.deliverAvail(o.A, o.V)
+		return w.deliverAvail(o.A, o.V, o.P)
 	case "unavail":
-		return w.deliverUnavail(o.A, o.V)
+		return w.deliverUnavail(o.A, o.V, o.P)
 	case "err":
 		return w.deliverErr(o.K, o.V)
 	case "invite":
 		return w.deliverInvite(o.V)
+	case "msg":
+		return w.deliverMsg(o.C, o.V)
 	case "other":
 		return w.deliverOther(o.V)
 	case "query":
@@ -851,6 +998,9 @@ func (w *world) apply(o Op) bool {
 // finish drives every call to its return: calls are released into their
 // selects, whatever is ready is taken, and what remains is cancelled.
 func (w *world) finish() {
+	if w.died {
+		return
+	}
 	for round := 0; round < 3; round++ {
 		for _, c := range w.calls {
 			switch c.ph {
